@@ -145,7 +145,9 @@ pub fn c16(a: &Args) -> i32 {
             .with_json("/inline", |v| Ok(json!({"inline": v})));
         let listener = rt.block_on(WebSocketServer::listen("127.0.0.1:0")).unwrap();
         let addr = listener.local_addr().unwrap();
-        let server = WebSocketServer::new(router).with_offreader_limit(cap).on_error(move |e: &ConnectionError| {
+        // the per-connection outbound queue is also varied: parked handlers must not pin its capacity
+        let outcap = [256usize, 1, 2][si % 3];
+        let server = WebSocketServer::new(router).with_offreader_limit(cap).with_outbound_capacity(outcap).on_error(move |e: &ConnectionError| {
             let k = match e { ConnectionError::Saturation { .. } => "saturation", ConnectionError::HandlerPanic { .. } => "handler_panic", _ => "other" };
             l3.push(json!({"ev": "on_error", "kind": k}));
         });
@@ -153,7 +155,7 @@ pub fn c16(a: &Args) -> i32 {
         std::thread::sleep(Duration::from_millis(20));
         let mut ws = ws_connect(addr, "/ws");
         gauge.store(0, Ordering::SeqCst);
-        log.push(json!({"ev": "reset", "cap": cap, "schedule": si, "order": order, "exits": kinds}));
+        log.push(json!({"ev": "reset", "cap": cap, "schedule": si, "order": order, "exits": kinds, "outbound_capacity": outcap}));
         let send_work = |ws: &mut Ws, n: u64, exit: &str, notify: bool, log: &Arc<Log>| -> u64 {
             next_id.set(next_id.get() + 1);
             let id = next_id.get();
